@@ -76,6 +76,13 @@ def main(argv=None):
     paths = 0
     entered, shims, stubs = set(), {}, {}
     samples = []
+    hashes = set()
+    n_queries_hashed = 0
+    for r in results:
+        if r:
+            hs = r.get("hashes", [])
+            n_queries_hashed += len(hs)
+            hashes |= {r["job"]["name"] + ":" + h for h in hs}
     for r in results:
         if r is None:
             inconclusive.append("job returned nothing")
@@ -150,10 +157,14 @@ def main(argv=None):
                 bounds=meta.get("bounds", {}),
                 outside_bounds=meta.get("outside", []),
                 obligations=n_obl, discharged=n_dis,
-                evaluations=tot["unsat"] + tot["sat"] + tot["unknown"],
-                distinct_nontrivial=tot["unsat"] + tot["sat"] + tot["unknown"],
-                rule=("one evaluation = one final SMT query (job x path x obligation); trivial queries whose negation "
-                      "simplifies to false syntactically are counted separately (%d) and not included" % tot["trivial"]),
+                evaluations=tot["unsat"] + tot["sat"] + tot["unknown"] + tot["trivial"],
+                smt_queries=tot["unsat"] + tot["sat"] + tot["unknown"],
+                distinct_nontrivial=(len(hashes) + sum(o.get("unsat", 0) + o.get("sat", 0) for r in results if r and r.get("extra_kind") for o in r["obligations"].values())),
+                rule=("one evaluation = one obligation instance on one path (job x path x obligation), decided either by a final SMT query / CrossHair / SMT-LIB verdict or syntactically by z3's simplifier; distinct_nontrivial counts only solver-decided ones: distinct "
+                      "(job, obligation, negated-claim term) after z3 simplification, hashed; obligations whose negation simplifies to false "
+                      "(identity between the code's term and the oracle's term) are decided syntactically, counted separately (%d) and not "
+                      "included in distinct_nontrivial" % tot["trivial"]),
+                decided_by_term_identity=tot["trivial"],
                 queries=tot, paths=paths, jobs=len(results), solver_seconds=round(solver_s, 2),
                 stubs_hit=stubs, shims_hit=shims,
                 reachability=dict(jobs_with_satisfiable_path=sum(1 for r in results if r and r["reach"].get("paths_with_model", 0) > 0 or (r and r.get("extra_kind"))),
